@@ -17,6 +17,9 @@ pub enum Cat {
     Quote = 16,
     ArgSpell = 32,
     Edge = 64,
+    /// no blank at all next to a punctuation token ('(' ')' '!' ','): accepted spellings must
+    /// agree with the spaced one, rejection is allowed
+    Glue = 128,
 }
 
 pub trait Chooser {
@@ -43,10 +46,12 @@ pub struct Stream<'a> {
     pub n_noncanon: u32,
     /// a tab/CR/LF separator was placed directly after a bare argument word
     pub blank_after_bare: bool,
+    /// a blank was left out next to a punctuation token
+    pub glued: bool,
 }
 impl<'a> Stream<'a> {
     pub fn new(v: &'a [u16], enabled: u32) -> Self {
-        Stream { v, i: 0, enabled, used: 0, n_noncanon: 0, blank_after_bare: false }
+        Stream { v, i: 0, enabled, used: 0, n_noncanon: 0, blank_after_bare: false, glued: false }
     }
     pub fn dims(&self) -> u32 {
         self.used.count_ones()
@@ -488,6 +493,16 @@ pub fn join_tracking(toks: &[Tok], ch: &mut Stream) -> String {
     s.push_str(EDGES[ch.pick(Cat::Edge, EDGES.len())]);
     for (i, t) in toks.iter().enumerate() {
         if i > 0 && !t.glue_before {
+            // optional: no blank next to a punctuation token (never after a bare argument word,
+            // which would swallow '(' '!' ',' into the word)
+            let punct = |x: &str| matches!(x, "(" | ")" | "!" | ",");
+            let (a, b) = (&toks[i - 1], t);
+            let may_glue = (punct(&a.text) || punct(&b.text)) && !(a.bare_arg && b.text != ")");
+            if may_glue && ch.pick(Cat::Glue, 5) == 4 {
+                ch.glued = true;
+                s.push_str(&t.text);
+                continue;
+            }
             let k = ch.pick(Cat::Sep, SEPARATORS.len());
             if toks[i - 1].bare_arg && !SEPARATORS[k].starts_with(' ') {
                 ch.blank_after_bare = true;
